@@ -91,6 +91,12 @@ func vpNewLegacy(w http.ResponseWriter) (*vpTransport, error) {
 		return nil, errors.New("cannot hijack connection")
 	}
 	// a request may bring its own connection (independent of the order in which concurrent requests are served)
+	if hw, ok := w.(*vpHTTPW); ok && hw.onHijack != nil {
+		// taking the connection over from the http server takes time: other requests are served meanwhile
+		f := hw.onHijack
+		hw.onHijack = nil
+		f()
+	}
 	if hw, ok := w.(*vpHTTPW); ok && hw.tr != nil {
 		vpMu.Lock()
 		vpMadeTransports = append(vpMadeTransports, hw.tr)
@@ -306,6 +312,7 @@ func vpResetHandlers() {
 
 type vpHTTPW struct {
 	hdr http.Header
+	onHijack func()
 	tr  *vpTransport // the connection behind this response writer (nil: next queued transport)
 }
 
